@@ -469,6 +469,8 @@ class Sim:
         self.memo = {}
         self.busy = set()
         self.div_guards = []                # z3 Bool: divisor != 0 for every / and % evaluated
+        self.pc = []                        # conditions under which the expression being evaluated is executed
+        self.width_guards = []              # z3 Bool: (path condition) => + - * << did not wrap at the width Verilog gives it
 
     # -- state ----------------------------------------------------------------------------------
     def state_nets(self):
@@ -694,9 +696,15 @@ class Sim:
             if op in ('+', '-', '*', '/', '%', '&', '|', '^', '~^', '^~'):
                 a = self.ev(scope, e.a, w, signed, env)
                 b = self.ev(scope, e.b, w, signed, env)
-                if op == '+': return a + b
-                if op == '-': return a - b
-                if op == '*': return a * b
+                if op == '+':
+                    self._wguard(z3.And(z3.BVAddNoOverflow(a, b, signed), z3.BVAddNoUnderflow(a, b)) if signed else z3.BVAddNoOverflow(a, b, False))
+                    return a + b
+                if op == '-':
+                    self._wguard(z3.And(z3.BVSubNoOverflow(a, b), z3.BVSubNoUnderflow(a, b, True)) if signed else z3.BVSubNoUnderflow(a, b, False))
+                    return a - b
+                if op == '*':
+                    self._wguard(z3.And(z3.BVMulNoOverflow(a, b, signed), z3.BVMulNoUnderflow(a, b)) if signed else z3.BVMulNoOverflow(a, b, False))
+                    return a * b
                 if op == '&': return a & b
                 if op == '|': return a | b
                 if op == '^': return a ^ b
@@ -713,6 +721,8 @@ class Sim:
                 a2, b2 = _fit(a, m, signed if op == '>>>' else False), _fit(b, m, False)
                 if op in ('<<', '<<<'):
                     r = a2 << b2
+                    rw = _fit(r, w, False)
+                    self._wguard(z3.And(z3.ULT(b2, z3.BitVecVal(w, m)), z3.LShR(_fit(rw, m, False), b2) == _fit(_fit(a2, w, False), m, False)))
                 elif op == '>>' or not signed:
                     r = z3.LShR(a2, b2)
                 else:
@@ -733,18 +743,42 @@ class Sim:
             if op in ('&&', '||'):
                 (wa, sa), (wb, sb) = size_of(self.d, scope, e.a), size_of(self.d, scope, e.b)
                 a = _nonzero(self.ev(scope, e.a, wa, sa, env))
-                b = _nonzero(self.ev(scope, e.b, wb, sb, env))
+                self.pc.append(a if op == '&&' else z3.Not(a))       # what a short-circuiting source language evaluates
+                try:
+                    b = _nonzero(self.ev(scope, e.b, wb, sb, env))
+                finally:
+                    self.pc.pop()
                 return _fit(_b2v(z3.And(a, b) if op == '&&' else z3.Or(a, b)), w, False)
             raise VlogUnsupported('binary %s' % op)
         if isinstance(e, Cond):
             cw, cs = size_of(self.d, scope, e.c)
             c = _nonzero(self.ev(scope, e.c, cw, cs, env))
-            return z3.If(c, self.ev(scope, e.a, w, signed, env), self.ev(scope, e.b, w, signed, env))
+            self.pc.append(c)
+            try:
+                ta = self.ev(scope, e.a, w, signed, env)
+            finally:
+                self.pc.pop()
+            self.pc.append(z3.Not(c))
+            try:
+                tb = self.ev(scope, e.b, w, signed, env)
+            finally:
+                self.pc.pop()
+            return z3.If(c, ta, tb)
         if isinstance(e, SysCall):
             aw, asg = size_of(self.d, scope, e.args[0])
             t = self.ev(scope, e.args[0], aw, asg, env)
             return _fit(t, w, signed)
         raise VlogUnsupported('expression %r' % e)
+
+    def _wguard(self, g):
+        self.width_guards.append(z3.Implies(z3.And(*self.pc), g) if self.pc else g)
+
+    def _under(self, cond, fn):
+        self.pc.append(cond)
+        try:
+            return fn()
+        finally:
+            self.pc.pop()
 
     def _base_lo(self, scope, base):
         if isinstance(base, Id) and scope.full(base.name) in self.d.nets:
@@ -763,10 +797,10 @@ class Sim:
         elif isinstance(st, If):
             c = _nonzero(self.ev_self(scope, st.cond, env))
             e1, n1 = dict(env), dict(nba)
-            self.exec(scope, st.then, e1, n1, comb)
+            self._under(c, lambda: self.exec(scope, st.then, e1, n1, comb))
             e2, n2 = dict(env), dict(nba)
             if st.els is not None:
-                self.exec(scope, st.els, e2, n2, comb)
+                self._under(z3.Not(c), lambda: self.exec(scope, st.els, e2, n2, comb))
             self._merge(c, env, e1, e2)
             self._merge(c, nba, n1, n2)
         elif isinstance(st, Case):
@@ -781,10 +815,12 @@ class Sim:
             # first match wins: fold from the last
             res_e, res_n = dict(env), dict(nba)
             if st.default is not None:
-                self.exec(scope, st.default, res_e, res_n, comb)
-            for c, body in reversed(branches):
+                self._under(z3.Not(z3.Or(*[c for c, _ in branches])) if branches else z3.BoolVal(True),
+                            lambda: self.exec(scope, st.default, res_e, res_n, comb))
+            for bi, (c, body) in reversed(list(enumerate(branches))):
                 e1, n1 = dict(env), dict(nba)
-                self.exec(scope, body, e1, n1, comb)
+                first = z3.And(c, *[z3.Not(c0) for c0, _ in branches[:bi]])
+                self._under(first, lambda: self.exec(scope, body, e1, n1, comb))
                 me, mn = dict(env), dict(nba)
                 self._merge(c, me, e1, res_e)
                 self._merge(c, mn, n1, res_n)
